@@ -858,6 +858,21 @@ class Ev:
                         out[nm] = val
         return out
 
+    def here(self, n=None, mod=None) -> str:
+        """'file:line' of the construct being folded: the node when the transfer function was given one, else the function on top of the inlining stack"""
+        if mod is not None and n is not None and getattr(n, "lineno", None):
+            return f"{mod.rel}:{n.lineno}"
+        stack = self.__dict__.get("stack") or []
+        if stack:
+            ref = stack[-1][0]
+            try:
+                mname, q = ref.split(":")
+                m = self.model.mods[mname]
+                return f"{m.rel}:{m.funcs[q].lineno}"
+            except Exception:
+                return ""
+        return ""
+
     def init_attr(self, obj: Obj, name):
         """value of self.<name> from the constructor: a store directly in __init__ is evaluated
         from its right-hand side; a store inside a no-argument method that __init__ calls is
@@ -2757,7 +2772,10 @@ def lib_tuple(ev, a, k, n, mod):
 
 
 def lib_list(ev, a, k, n, mod):
-    return Tup(ev.iterate(a[0], n, mod) if a else [], "list")
+    out = Tup(ev.iterate(a[0], n, mod) if a else [], "list")
+    if a and getattr(a[0], "own_order", None) is not None:
+        out.own_order = a[0].own_order          # the same items in the same (element-specific) order
+    return out
 
 
 def lib_sorted(ev, a, k, n, mod):
